@@ -388,6 +388,19 @@ class FreeTables:
             self._t[key] = t
         return t
 
+    def cf(self, pop, items) -> Fraction:
+        """Arbitrary positive 'joint counterfactual probability' of a multi-world term (a function of its structure
+        and values only); enough for laws that do not rely on marginalisation across worlds (print/parse)."""
+        key = (pop, tuple(sorted((n, tuple(sorted(do.items())), v) for n, do, v in items)))
+        v = self._q.get(("cf", key))
+        if v is None:
+            from .common import derive_seed
+
+            rng = SplitMix(derive_seed(self.mseed, "CF", str(key)))
+            v = Fraction(rng.between(1, 9), rng.between(10, 19))
+            self._q[("cf", key)] = v
+        return v
+
     def qfactor(self, codomain: dict, domain: dict) -> Fraction:
         key = (tuple(sorted(codomain.items())), tuple(sorted(domain.items())))
         v = self._q.get(key)
